@@ -30,7 +30,7 @@ SPEC = {
                'thorough': {'sequences': 'until the time budget', 'thread_rounds_per_shard': 12, 'fresh_interpreter_calls_per_shard': 60}},
     'floor': {'quick': 20000, 'thorough': 200000},
     'required_counters': ['sequence_calls', 'thread_calls', 'fresh_interpreter_calls', 'cache_hits_seen', 'cache_evictions_seen',
-                          'forced_yields', 'matcher_object_checks', 'distinct_interleavings'],
+                          'forced_yields', 'matcher_object_checks', 'distinct_interleavings', 'matcher_reuse_fs_checks'],
     'budget': {'quick': 45, 'thorough': 480},
     'shard_timeout': {'quick': 400, 'thorough': 1500},
     'assumptions': ['CPython\'s GIL hides most data races; what can be exposed is logical sharing (module-level parser state, a cache '
@@ -258,8 +258,91 @@ def matcher_objects(ctx, pool, rng):
     ctx.mark_nontrivial('matcher-objects')
 
 
+def matcher_reuse_across_fs(ctx):
+    """A compiled REALPATH matcher is a pure function of (its arguments, the file system): reusing one object while the
+    file system, the working directory or the directory behind a dir_fd changes must give the answers of a fresh call."""
+    n = 0
+    for pat, fl in (('**/f', G.GLOBSTAR | G.REALPATH), ('d/**', G.GLOBSTAR | G.REALPATH), ('**/x/**', G.GLOBSTAR | G.REALPATH),
+                    ('*/**/f', G.GLOBSTAR | G.REALPATH | G.DOTGLOB), ('**', G.GLOBSTAR | G.REALPATH | G.MATCHBASE)):
+        with T.Tree([('d', 'd', None), ('d/x', 'd', None), ('d/x/f', 'f', None), ('real', 'd', None), ('real/x', 'd', None),
+                     ('real/x/f', 'f', None)], 'c19a-') as ta, \
+                T.Tree([('real', 'd', None), ('real/x', 'd', None), ('real/x/f', 'f', None), ('d', 'l', 'real')], 'c19b-') as tb:
+            m = G.compile(pat, flags=fl)
+            cands = ['d/x/f', 'd/x', 'd', 'real/x/f', 'd/x/f/']
+            steps = []
+
+            def compare(label, **kw):
+                nonlocal n
+                for c in cands:
+                    a = outcome_(lambda: m.match(c, **kw))
+                    b = outcome_(lambda: G.globmatch(c, pat, flags=fl, **kw))
+                    flt = outcome_(lambda: m.filter([c], **kw))
+                    n += 1
+                    ctx.evals()
+                    if a != b or flt != ([c] if b is True else []):
+                        ctx.disagree('a reused compiled matcher answers differently from a fresh call after the file system / root changed',
+                                     {'pattern': pat, 'flags': fl, 'step': label, 'candidate': c, 'reused_match': a, 'reused_filter': flt,
+                                      'fresh_globmatch': b, 'earlier_steps': steps[:]})
+                        return False
+                steps.append(label)
+                return True
+
+            # 1. same root string, directory replaced by a symlink (and back)
+            if not compare('tree A (d is a directory)', root_dir=ta.root):
+                continue
+            import shutil as _sh
+            _sh.rmtree(os.path.join(ta.root, 'd'))
+            os.symlink('real', os.path.join(ta.root, 'd'))
+            if not compare('tree A after d was replaced by a symlink to real', root_dir=ta.root):
+                continue
+            os.unlink(os.path.join(ta.root, 'd'))
+            os.makedirs(os.path.join(ta.root, 'd', 'x'))
+            open(os.path.join(ta.root, 'd', 'x', 'f'), 'w').close()
+            if not compare('tree A after d became a directory again', root_dir=ta.root):
+                continue
+            # 2. no root given: the working directory moves between two trees
+            cwd = os.getcwd()
+            try:
+                os.chdir(tb.root)
+                ok = compare('cwd = tree B (d is a symlink)')
+                os.chdir(ta.root)
+                ok = ok and compare('cwd = tree A (d is a directory)')
+            finally:
+                os.chdir(cwd)
+            if not ok:
+                continue
+            # 3. the same file descriptor number opened on another directory
+            fd = os.open(ta.root, os.O_RDONLY)
+            try:
+                ok = compare('dir_fd -> tree A', dir_fd=fd)
+            finally:
+                os.close(fd)
+            fd2 = os.open(tb.root, os.O_RDONLY)
+            try:
+                if fd2 != fd:
+                    os.dup2(fd2, fd)
+                    os.close(fd2)
+                    fd2 = fd
+                ok = ok and compare('same dir_fd number -> tree B', dir_fd=fd2)
+            finally:
+                os.close(fd2)
+    ctx.count('matcher_reuse_fs_checks', n)
+    ctx.mark_nontrivial('matcher-reuse-fs')
+
+
+def outcome_(fn):
+    try:
+        return fn()
+    except Exception as e:  # noqa: BLE001
+        return ['raised', type(e).__name__]
+
+
 def run(ctx):
     quick = ctx.quick
+    if ctx.shard % 4 == 0:
+        matcher_reuse_across_fs(ctx)
+    else:
+        ctx.count('matcher_reuse_fs_checks', 0)
     pool = build_pool(ctx.seed)
     texts = {}
     for c in pool:
